@@ -24,7 +24,7 @@ TITLE = "Vector construction and the missing-value model are coherent"
 RULE = ("cases = every sequence over the scalar alphabet up to the length bound (x explicit dtypes for homogeneous ones), each run through "
         "construction + all laws; distinct = digest of (scalar names, dtype); non-trivial = contains a missing value and a non-missing value, or mixes >= 2 value types")
 ASSUMPTIONS = [
-    "nested sequences as elements, None with an explicit dtype that cannot hold a missing value, and NaT scalars mixed into non-date sequences are unspecified and excluded (DESIGN 3.5)",
+    "nested sequences as elements and NaT scalars mixed into non-date sequences are unspecified and excluded (DESIGN 3.5); None with explicit dtype bool is expected to be upcast to object (the only way is_na can flag it)",
     "for mixed-type sequences only the laws are checked, not a particular inferred dtype",
 ]
 BOUND = {
@@ -144,7 +144,8 @@ def expected_homogeneous(fam, has_missing, dtype):
     if dtype is float:
         return ("float64", "nan")
     if dtype is bool:
-        return ("bool", None)
+        # a missing value must be flagged by is_na, which bool cannot do: the vector has to be upcast (na_dtype = object)
+        return ("object", "None") if has_missing else ("bool", None)
     if dtype is str:
         return ("string", "''")
     if dtype is object:
@@ -348,6 +349,8 @@ def check_case(case, rec):
         homog = (hm[0], hm[1], dtype)
     elif not fams and dtype is None:
         homog = ("object", bool(names), None) if names else None
+    elif not fams and names:
+        homog = ({int: "int", float: "float", str: "str", object: "object", bool: "bool"}.get(dtype, "date" if dtype == "datetime64[D]" else "datetime"), True, dtype)
     out = laws(v, names, seq, rec, case, homog)
     if out is not None:
         rec.state(("vec", str(v.dtype), tuple(V.tok(x) for x in V.cells(v))))
@@ -361,8 +364,10 @@ def seq_cases(names):
     if hm is not None:
         fam, has_missing = hm
         for d in EXPLICIT.get(fam, []):
-            if d is bool and has_missing:
-                continue  # excluded: None with a dtype that cannot hold a missing value
+            yield {"names": list(names), "dtype": dtype_arg(d)}
+    elif names and all(x in MISSING for x in names):
+        # entirely missing input with an explicit dtype: the dtype's own missing value everywhere
+        for d in (int, float, str, object, bool, "datetime64[D]", "datetime64[us]"):
             yield {"names": list(names), "dtype": dtype_arg(d)}
 
 
